@@ -125,7 +125,7 @@ func utf8Edges(t *testing.T) int {
 	}
 	// a long-lived reader: the invalid message is followed by control frames
 	// with a payload and by further messages, and the caller goes on after
-	// ErrInvalidUTF8 (control byte 0 = entry + 6: continue mode)
+	// ErrInvalidUTF8 (control byte 0 = entry + contBit: continue mode)
 	after := cat(
 		ref.Frame{H: ref.Header{Fin: true, Op: ref.OpPing}, Payload: []byte("0123456789")}.Encode(),
 		ref.Frame{H: ref.Header{Fin: true, Op: ref.OpPong}, Payload: []byte("abc")}.Encode(),
@@ -134,11 +134,11 @@ func utf8Edges(t *testing.T) int {
 		ref.Frame{H: ref.Header{Fin: true, Op: ref.OpCont}, Payload: []byte("ag")}.Encode(),
 		ref.Frame{H: ref.Header{Fin: true, Op: ref.OpClose}, Payload: []byte("\x03\xe8bye")}.Encode())
 	contCtls := [][]byte{
-		{8, 0x01 | 4 | 0x80, 0x00, 0}, // top-level control frames through ControlFrameHandler
-		{8, 0x01 | 4, 0x00, 0},        // … read by the harness, 512-byte window
-		{8, 0x01 | 4, 0x10, 0},        // … 1-byte window
-		{8, 0x01 | 4, 0x20, 3},        // … 3-byte window, transport in 3-byte chunks
-		{8, 0x01 | 4, 0x01, 0},        // messages discarded
+		{2 + contBit, 0x01 | 4 | 0x80, 0x00, 0}, // top-level control frames through ControlFrameHandler
+		{2 + contBit, 0x01 | 4, 0x00, 0},        // … read by the harness, 512-byte window
+		{2 + contBit, 0x01 | 4, 0x10, 0},        // … 1-byte window
+		{2 + contBit, 0x01 | 4, 0x20, 3},        // … 3-byte window, transport in 3-byte chunks
+		{2 + contBit, 0x01 | 4, 0x01, 0},        // messages discarded
 	}
 	for si, size := range sizes {
 		if !hx.Mine(si) {
